@@ -158,10 +158,31 @@ def run_history(chk, da, rng, hid):
                     live[i] = progs.build(p, da, sources, memo={})
                 got = live[i].compute(scheduler="sync")
         except Exception as e:  # noqa: BLE001
+            # does the configuration ALONE do it (fresh build, cleared lowering cache, same options)?  then the history is innocent
+            config_alone = False
+            try:
+                saved = dict(_materialize._LOWER_CACHE)       # the probe must not change the history under test
+                _materialize._LOWER_CACHE.clear()
+                with dask.config.set(cfg), warnings.catch_warnings():
+                    warnings.simplefilter("ignore")
+                    progs.build(p, da, sources, memo={}).compute(scheduler="sync")
+            except Exception as e2:  # noqa: BLE001
+                config_alone = err_sig(e2) == err_sig(e)
+            finally:
+                try:
+                    _materialize._LOWER_CACHE.clear()
+                    _materialize._LOWER_CACHE.update(saved)
+                except Exception:  # noqa: BLE001
+                    pass
             chk.violation(f"a program that computes in a fresh process state raises after history/config changes: {type(e).__name__}: {str(e)[:100]}",
                           {"program": progs.show(p), "history": [(a, j, c) for a, j, c in steps[: sidx + 1]], "members": [progs.show(q) for q, _ in members],
-                           "config": cfg},
-                          signature={"class": "raises", "error": err_sig(e)})
+                           "config": cfg, "members_repr": [repr(q) for q, _ in members], "target": i,
+                           "all_sources": {k: {"shape": list(a.shape), "dtype": str(a.dtype), "chunks": c, "data": a.tolist() if a.size <= 600 else None} for k, (a, c) in enumerate(sources)}},
+                          signature={"class": "raises", "error": err_sig(e), "config_alone": config_alone,
+                                     # F5b's mechanism can also end in a graph that cannot be built (plan against a stale grid)
+                                     "stale_cached_chunks": bool((i in live and stale_cached_chunks(live[i].expr, cfg)) or i in poisoned)})
+            if i in live and stale_cached_chunks(live[i].expr, cfg):
+                poisoned.add(i)
             continue
         ok, why = progs.values_equal(got, v)
         if ok:
@@ -623,6 +644,11 @@ def model_history(chk, da, rng, hid, log):
             # simplify: the name the first top-level request was issued for
             if opt:
                 simplified = x.expr.simplify()._name
+                if log.simp.get(x.expr._name, simplified) != simplified:
+                    # the model takes simplify as a function of the NAME; in this history the same raw expression simplified to two
+                    # different forms under two configurations (option-dependent pushdowns): outside the model, counted
+                    skipped = "simplify-depends-on-config"
+                    break
                 log.simp[x.expr._name] = simplified
             emit(f"Materialize {c}%nat {log.cfg}%positive {cbool(opt)} [" + "; ".join(items) + "]", results, log.nid(log.lower_out))
             # the invariant on the REAL cache: every cached lowered form computes what its key's expression computes
